@@ -835,6 +835,9 @@ def comp_scale(form, pre):
     for k, x in zip(kinds, pre):
         big[grp(k)] = max(big.get(grp(k), 0.0), abs(float(x)))
     big["num"] = max(big.get("num", 0.0), 1.0)
+    if "rate" in big and "len" in big:
+        # spherical / cylindrical: r_dot vanishes at the apsides, the scale of a velocity is the speed r * theta_dot
+        big["vel"] = max(big.get("vel", 0.0), big["len"] * big["rate"])
     return np.array([big[grp(k)] if big[grp(k)] > 0 else 1.0 for k in kinds])
 
 
